@@ -2,6 +2,7 @@ import Driver.Util
 import MlModel.Model.Agg.RollingMeanVar
 import MlModel.Model.Agg.RollingSimple
 import MlModel.Model.Agg.RollingSamplers
+import MlModel.Model.Agg.RollingHeap
 /-!
 Driver for the "rolling" metric family (model name `aggrolling`).
 
@@ -11,7 +12,7 @@ Request: `{"model":"aggrolling","metric":<name>,"cfg":{..},"prog":[op,..]}` wher
 Response: `{"obs":[..]}` — one entry per executed op (`null` for a silent update, the result
 for `result`/`call`, `{"err":kind}` for a modelled Python exception, after which the program stops).
 -/
-open Lean MlModel MlModel.Agg MlModel.Agg.Rolling
+open Lean MlModel MlModel.Agg MlModel.Agg.Rolling MlModel.Agg.Heap MlModel.Agg.Rolling.H
 namespace Driver.AggRolling
 
 /-- one metric class as an abstract machine over JSON batches -/
@@ -298,6 +299,40 @@ def fssMachine (maxSize : Nat) : Machine where
     ("members", Json.arr s.reservoir.toArray)])
   call := fun _ => throw "not callable"
 
+/-! ### identity probes: which accumulators reference a common container (heap model) -/
+
+def sharePairs {C B : Type} (cls : HClass C B) (σ : Sys cls) : Json :=
+  let fps := σ.objs.map fun o => (cls.fp o).refs
+  let n := fps.length
+  let pairs := (List.range n).flatMap fun i => (List.range n).filterMap fun j =>
+    if i < j && (fps.getD i []).any (fun r => (fps.getD j []).contains r) then
+      some (Json.arr #[toJson i, toJson j]) else none
+  Json.arr pairs.toArray
+
+/-- after every op: the pairs `[i, j]` of accumulators that share at least one container -/
+def runHeap {C B : Type} (cls : HClass C B) (parseBatch : Json → Except String B) (prog : List Json) :
+    Except String Json := do
+  let mut σ : Sys cls := Sys.init cls
+  let mut obs : Array Json := #[]
+  for op in prog do
+    let kind ← Driver.getStr op "op"
+    match kind with
+    | "make" => σ := σ.step .make
+    | "add" =>
+      let i ← Driver.getNat op "acc"
+      let b ← parseBatch (← batchOf op)
+      σ := σ.step (.add i b)
+    | "merge" =>
+      let i ← Driver.getNat op "acc"
+      let j ← Driver.getNat op "other"
+      σ := σ.step (.merge i j)
+    | k => throw s!"unknown heap op {k}"
+    obs := obs.push (sharePairs cls σ)
+  return Json.mkObj [("shares", Json.arr obs)]
+
+def parseMVRows (b : Json) : Except String (List (List F)) := do
+  parseList (parseList parseF) (← b.getObjVal? "rows")
+
 def handle (j : Json) : Except String Json := do
   let metric ← Driver.getStr j "metric"
   let cfg := (j.getObjVal? "cfg").toOption.getD Json.null
@@ -317,6 +352,12 @@ def handle (j : Json) : Except String Json := do
   | "sampler" => run usMachine prog
   | "valueacc" => do let c ← Driver.getBool cfg "concat"; run (vaMachine c) prog
   | "fss" => do let n ← Driver.getNat cfg "max_size"; run (fssMachine n) prog
+  | "heap_sampler" => runHeap (usClass Json) parseCols prog
+  | "heap_valueacc" => runHeap (vaClass Json) parseCols prog
+  | "heap_fss" => do
+    let n ← Driver.getNat cfg "max_size"
+    runHeap (fssClass Json true n []) (fun b => do return (← b.getArr?).toList) prog
+  | "heap_meanvar" => do let k ← Driver.getNat cfg "k"; runHeap (mvClass k) parseMVRows prog
   | m => throw s!"unknown metric {m}"
 
 end Driver.AggRolling
